@@ -117,7 +117,9 @@ def run_cfg(ctx, p, cfg):
             f = p.fn(path)
             cs = [c for c in f.calls() if (c.callee or "").rsplit("::", 1)[-1] in ("push", "extend", "extend_from_slice", "append")]
             badc = [c for c in f.calls() if (c.callee or "").rsplit("::", 1)[-1] in ("insert", "reverse", "rev", "sort", "sort_by", "swap", "rotate_left", "rotate_right", "push_front")]
-            r.require(len(cs) == 1 and not badc, "builder-appends:%s" % path, fn=f,
+            onfield = [c for c in cs if deep_strip(c.arg(0))[0] == "field" and deep_strip(c.arg(0))[2] == "filters" and deep_strip(deep_strip(c.arg(0))[1]) == ("param", 1)]
+            reassigned = [1 for b_, i_, s_ in f.assigns() if s_["lhs"]["l"] == 1 and any(isinstance(e_, dict) and e_.get("f") == "filters" for e_ in s_["lhs"]["p"])]
+            r.require(len(cs) == 1 and len(onfield) == 1 and not badc and not reassigned, "builder-appends:%s" % path, fn=f,
                       detail="%s appends at the end (calls: %s)" % (path, [c.callee for c in cs + badc]))
         # the snapshot constructor moves the filters over unchanged
         sn = ro["shared_new"]
